@@ -64,7 +64,8 @@ def statement_case(statement):
                 eq, code = s.equation, s.code
                 break
     out['equation'], out['code'] = eq, code
-    if is_verbatim_statement(statement):
+    out['kind'] = 'verb' if is_verbatim_statement(statement) else 'eqn'
+    if out['kind'] == 'verb':
         out['terms'] = None
     else:
         t = impl(P.parse_equation_terms, statement)
@@ -131,17 +132,42 @@ def equations(prog):
     return [s for s in prog.statements if isinstance(s, gs.Equation)]
 
 
+def canon(e):
+    """The equation/expression with `X` and `X[0]` identified (they are the same term)."""
+    if isinstance(e, gs.Equation):
+        return gs.Equation(canon(e.lhs), canon(e.rhs))
+    if isinstance(e, gs.Term):
+        return gs.Term(e.kind, e.name, 0 if e.index is None else e.index)
+    if isinstance(e, gs.Un):
+        return gs.Un(e.op, canon(e.e))
+    if isinstance(e, gs.Bin):
+        return gs.Bin(e.op, canon(e.l), canon(e.r))
+    if isinstance(e, gs.Call):
+        return gs.Call(e.fname, tuple(canon(a) for a in e.args))
+    if isinstance(e, gs.IfElse):
+        return gs.IfElse(canon(e.a), canon(e.c), canon(e.b))
+    return e
+
+
 def double_defined(prog):
-    """Names assigned by two *different* equations (as ASTs)."""
+    """Names assigned by two *different* equations."""
     seen = {}
     bad = set()
     for st in equations(prog):
         if st.lhs.kind != 'var':
             continue
-        if st.lhs.name in seen and seen[st.lhs.name] != st:
+        c = canon(st)
+        if st.lhs.name in seen and seen[st.lhs.name] != c:
             bad.add(st.lhs.name)
-        seen.setdefault(st.lhs.name, st)
+        seen.setdefault(st.lhs.name, c)
     return bad
+
+
+def payload_ok(scs):
+    """Every statement can be handed to the model: equations with their real terms, verbatim statements with the
+    real symbol's strings."""
+    return all((sc['kind'] == 'verb' and 'ok' in sc['impl']) or (sc['kind'] == 'eqn' and sc['terms'] is not None)
+               for sc in scs)
 
 
 def all_offsets(prog):
